@@ -432,26 +432,75 @@ func heldAtAllCallersOrStartup(c *km.Ctx, ls *km.LockSets, fn *ssa.Function, mu 
 	return true
 }
 
-// checkUnsealLock: unsealCA takes the state mutex as its first action, defers the unlock in the entry block and
-// holds it at every return.
+// checkUnsealLock: the sealed test, the signer load, the publication and the ready signal of unsealCA form one
+// critical section: each of load / ready-send holds the state mutex and is preceded, within the same
+// uninterrupted hold, by a read of state.Signer that was found nil. (Decryption may happen outside the lock.)
 func checkUnsealLock(c *km.Ctx, ls *km.LockSets, unseal *ssa.Function, rule string) {
-	first := ""
-	hasDefer := false
-	for _, in := range unseal.Blocks[0].Instrs {
-		if ci, ok := in.(ssa.CallInstruction); ok {
-			n := km.CalleeFull(ci.Common())
-			if _, isDefer := in.(*ssa.Defer); isDefer {
-				if n == "(*sync.Mutex).Unlock" {
-					hasDefer = true
+	const stateMu = KMD + ".RuntimeState.Mutex"
+	held := ls.Held(unseal)
+	var effects []ssa.Instruction
+	km.Instrs(unseal, func(in ssa.Instruction) {
+		if cl, ok := in.(*ssa.Call); ok && km.CalleeFull(cl.Common()) == RS+"loadSignersFromPemData" {
+			effects = append(effects, in)
+		}
+		if sd, ok := in.(*ssa.Send); ok && mentionsField(sd.Chan, "SignerIsReady") {
+			effects = append(effects, in)
+		}
+	})
+	if len(effects) < 2 {
+		c.R.AnchorLost(rule, "signer load and ready-send in unsealCA")
+		return
+	}
+	// explicit (non-deferred) unlocks of the state mutex
+	var unlocks []ssa.Instruction
+	km.Instrs(unseal, func(in ssa.Instruction) {
+		if cl, ok := in.(*ssa.Call); ok && km.CalleeFull(cl.Common()) == "(*sync.Mutex).Unlock" && mentionsField(cl.Common().Args[0], "Mutex") {
+			unlocks = append(unlocks, in)
+		}
+	})
+	between := func(a, u, b ssa.Instruction) bool { // u may execute after a and before b
+		ra := km.ReachableBlocks(a.Block(), nil)
+		ru := km.ReachableBlocks(u.Block(), nil)
+		return (ra[u.Block()] || a.Block() == u.Block()) && (ru[b.Block()] || u.Block() == b.Block())
+	}
+	for _, e := range effects {
+		what := "signer load"
+		if _, isSend := e.(*ssa.Send); isSend {
+			what = "ready-send"
+		}
+		ok := held[e][stateMu]
+		found := "state mutex held; Signer == nil was read under the same hold"
+		if !ok {
+			found = "the state mutex is not held here"
+		} else {
+			st := c.F.At(e)
+			ok = len(st) > 0 && st.All(func(k km.Conj) bool {
+				for _, f := range k.List() {
+					if f.Op != token.EQL || !km.IsNilConst(f.Y) || !isSignerLoadV(f.X) {
+						continue
+					}
+					rd, isInstr := km.Unwrap(f.X).(ssa.Instruction)
+					if !isInstr || rd.Parent() != unseal || !held[rd][stateMu] || !km.InstrDominates(rd, e) {
+						continue
+					}
+					released := false
+					for _, u := range unlocks {
+						if between(rd, u, e) {
+							released = true
+						}
+					}
+					if !released {
+						return true
+					}
 				}
-				continue
-			}
-			if first == "" {
-				first = n
+				return false
+			})
+			if !ok {
+				found = "no read of state.Signer found nil under the same uninterrupted hold of the mutex: another injection can complete in between"
 			}
 		}
+		c.R.Add(rule, km.FuncName(unseal), "sealed test and "+what+" in one critical section", posOf(c, e), "state mutex held, and within the same hold state.Signer was read and found nil", found, ok)
 	}
-	c.R.Add(rule, km.FuncName(unseal), "unsealing is one critical section", c.P.Pos(unseal.Pos()), "first call is state.Mutex.Lock(), Unlock is deferred in the entry block: the sealed test, decryption and signer load are atomic with respect to other injections", sprintf("first call=%s deferred unlock=%v", short(first), hasDefer), first == "(*sync.Mutex).Lock" && hasDefer)
 }
 
 // checkTotpGateAtomic: in validateUserTOTP the lookup of the per-user rate record, the spacing test and the update
